@@ -300,7 +300,7 @@ func shortName(n string) string {
 // ---- modular calls ----
 
 func (e *Engine) calleeEnv(fr *Frame, st *State, pre *State, fc *FuncContract, sig *types.Signature, invoke bool, args []Val) *Env {
-	env := &Env{e: e, fr: fr, st: st, oldSt: pre, bound: map[string]Val{}, names: map[string]Val{}, curFunc: fc.Name}
+	env := &Env{e: e, fr: fr, st: st, oldSt: pre, bound: map[string]Val{}, names: map[string]Val{}, curFunc: fc.Name, top0: pre.top}
 	if fr != nil && fr.fn.Pkg != nil {
 		env.pkg = fr.fn.Pkg.Pkg
 	}
